@@ -98,6 +98,10 @@ func allDigits(s string) bool {
 
 func c18(p *core.Program, r *core.Report) {
 	r.Rule("R1", "view-name layout agreement: the set of compact (digits-only) reference-time layouts passed to time.Time.Format in package pilosa (the writers of time-view names) equals the set passed to time.Parse (the readers), after constant folding of local strings and constant slices; and a switch on len(<time part>) in a reader covers exactly the lengths the writers produce")
+	r.Rule("R3", "a view without a time stamp has no time part: viewTimePart, constant-folded on the package's plain view names (viewStandard, a bsig_ view), yields a string whose length is none of the stamp lengths that minMaxViews and timeOfView branch on")
+	c18TimePartOfPlainViews(p, r)
+	r.Rule("R4", "every view of the timestamp is written: a Field loop over viewsByTime(..) that writes bits (view.setBit) writes in every iteration, leaves the function only with an error, and is never left by a break")
+	c18EveryViewWritten(p, r)
 	r.Rule("R2", "a requested time range is answered from the time views: in every function that parses from/to arguments, a fragment read on a path where a parsed time is known to be set (or the field has no standard view) uses a view name produced by viewsByTimeRange on that path -- never the standard view, which also holds bits set without a timestamp")
 	c18RangeViews(p, r)
 	r.NotDecided = "that viewsByTimeRange yields a disjoint exact cover of every aligned range (calendar arithmetic on runtime values)"
